@@ -287,6 +287,106 @@ def gen_op(rng, prop, world, idx, mask, nres_ops):
     return op
 
 
+def _noop_stop(rng, n):
+    return {"maxit": max(1, n)}
+
+
+def apply_template(rng, prop, world, mask, ops):
+    """Overwrite the structure (kinds, solver objects, field references, stops) of a
+    randomly generated operation list with one of a few multi-call patterns."""
+    ns = len(world["solvers"])
+    nf = len(world["fields"])
+    name = rng.choice(["ABA", "two-objects", "split-chain", "step-between", "cfl-change", "crash-redo", "same-dict"])
+
+    def fresh_op(i, kind):
+        for _ in range(20):
+            op = gen_op(rng, prop, world, i, mask, [])
+            if op["op"] != "step":
+                break
+        op["op"] = kind
+        op.pop("stop_share", None)
+        return op
+
+    def plain_final(op, n=None):
+        """make the call end without snapshot, so that it returns its final state object"""
+        n = n if n is not None else max(1, min(op.get("horizon", 3), 6))
+        op["tsave"] = []
+        op["stop"] = {"maxit": n}
+        op["stop_kind"] = "maxit"
+        op["horizon"] = n
+        return op
+
+    s0 = rng.randrange(ns)
+    s1 = (s0 + 1) % ns if ns > 1 else s0
+    fA = rng.randrange(nf)
+    fB = (fA + 1) % nf if nf > 1 else fA
+    if name == "ABA":
+        a = plain_final(fresh_op(0, "solve"))
+        b = plain_final(fresh_op(1, "solve"), a["stop"]["maxit"])
+        c = fresh_op(2, "restart")
+        a["s"] = b["s"] = c["s"] = s0
+        a["f"], b["f"], c["f"] = {"init": fA}, {"init": fB}, {"res": [0, -1]}
+        b["cfl"] = a["cfl"]
+        if rng.random() < 0.5:
+            b["stop_share"] = 0
+        return name, [a, b, c]
+    if name == "two-objects":
+        a = plain_final(fresh_op(0, "solve"))
+        b = fresh_op(1, rng.choice(["solve", "restart"]))
+        c = fresh_op(2, "restart")
+        a["s"], b["s"], c["s"] = s0, s1, s0
+        a["f"], b["f"], c["f"] = {"init": fA}, rng.choice([{"init": fB}, {"res": [0, -1]}]), {"res": [0, -1]}
+        return name, [a, b, c]
+    if name == "split-chain":
+        out = [plain_final(fresh_op(0, "solve"))]
+        out[0]["s"], out[0]["f"] = s0, {"init": fA}
+        for i in range(1, rng.choice([2, 3, 4])):
+            o = fresh_op(i, "restart")
+            o["s"], o["f"] = s0, {"res": [i - 1, -1]}
+            if rng.random() < 0.6:
+                plain_final(o)
+            out.append(o)
+        return name, out
+    if name == "step-between":
+        a = fresh_op(0, "solve")
+        c = fresh_op(2, rng.choice(["solve", "restart"]))
+        a["s"] = c["s"] = s0
+        a["f"] = {"init": fA}
+        c["f"] = rng.choice([{"init": fA}, {"res": [0, -1]}])
+        st = {"op": "step", "s": s0, "f": {"init": fB},
+              "dt": {"scalar": fhex(rng.choice([0.0625, 0.01, 0.03125]))}}
+        return name, [a, st, c]
+    if name == "cfl-change":
+        a = plain_final(fresh_op(0, "solve"))
+        b = fresh_op(1, "restart")
+        a["s"] = b["s"] = s0
+        a["f"], b["f"] = {"init": fA}, {"res": [0, -1]}
+        b["cfl"] = fhex(float.fromhex(a["cfl"]) * rng.choice([0.5, 2.0, 0.75]))
+        if rng.random() < 0.5:
+            b["dir"] = {"dtlocal": True}
+        return name, [a, b]
+    if name == "crash-redo":
+        a = fresh_op(0, "solve")
+        b = dict(a)
+        b["f"] = dict(a["f"])
+        a["s"] = b["s"] = s0
+        c = fresh_op(2, "restart")
+        c["s"], c["f"] = s0, {"res": [1, -1]}
+        return name, [a, b, c]
+    # same-dict: one monitors dictionary and one stop dictionary used by every call
+    out = []
+    for i in range(rng.choice([2, 3])):
+        o = fresh_op(i, "solve" if i == 0 or rng.random() < 0.4 else "restart")
+        o["s"] = rng.randrange(ns)
+        o["f"] = {"init": fA} if i == 0 else rng.choice([{"init": fB}, {"res": [i - 1, -1]}])
+        o["mon"] = out[0]["mon"] if i else (o.get("mon") or gen_monspec(rng, world["model"]["kind"], 2))
+        o["mon_id"] = 7
+        if i and out[0].get("stop"):
+            o["stop"], o["stop_kind"], o["stop_share"] = out[0]["stop"], out[0]["stop_kind"], 0
+        out.append(o)
+    return name, out
+
+
 def generate(seed, prop, run):
     rng = rng_for(seed, prop, run)
     world = gen_world(rng, prop)
@@ -318,8 +418,13 @@ def generate(seed, prop, run):
             op["stop_kind"] = ops[j]["stop_kind"]
         ops.append(op)
         res_ops.append(i)
+    # history templates: multi-call patterns that random choice reaches too rarely
+    template = None
+    if rng.random() < (0.30 if prop == "C08" else 0.10):
+        template, ops = apply_template(rng, prop, world, mask, ops)
+        nops = len(ops)
     # C08: frequently make the history a repeat / split of the same solve
-    if prop == "C08" and len(ops) >= 2 and rng.random() < 0.35:
+    elif prop == "C08" and len(ops) >= 2 and rng.random() < 0.35:
         a = ops[0]
         if a["op"] != "step":
             b = dict(a)
@@ -339,6 +444,9 @@ def generate(seed, prop, run):
         for _ in range(wchoice(rng, [(1, 75), (2, 25)])):
             plan.append({"op": rng.randrange(nops), "where": rng.choice(fmask), "frac": fhex(rng.random()),
                          "exc": wchoice(rng, [("fault", 60), ("interrupt", 40)])})
+    if template == "crash-redo" and not any(p["op"] == 0 for p in plan):
+        plan.append({"op": 0, "where": rng.choice(FAULT_WHERE), "frac": fhex(rng.random()),
+                     "exc": wchoice(rng, [("fault", 60), ("interrupt", 40)])})
     return {"v": 1, "prop": prop, "seed": seed, "run": run, "sub": subseed(seed, prop, run),
-            "world": world, "mask": sorted(mask), "ops": ops, "fault_plan": plan, "faults": [],
+            "world": world, "mask": sorted(mask), "template": template, "ops": ops, "fault_plan": plan, "faults": [],
             "alloc": any(p["where"] == "alloc" for p in plan)}
